@@ -183,7 +183,8 @@ fn(IC, 'flatmap', self_ty='IndexedCoproduct', status='P', props=['C08', 'C05', '
                 r.values.table@.len() == total(k) && r.values.target == other.values.target
                 && (forall|p: int, j: int| 0 <= p < k.len() && 0 <= j < k[p] ==>
                       r.values.table@[#[trigger] seg_at(k, p, j)] == other.values.table@[psum(other.sources.table@, self.values.table@[p] as int) + j]) })'''),
-            ('C08.flatmap-wf', 'r.wf()')],
+            ('C08.flatmap-wf', 'r.wf()'),
+            ('C08.flatmap-edges', 'forall|x: int, y: int| 0 <= x < self.sources.table@.len() ==> (#[trigger] adj_edge(r, x, y) <==> two_step(*self, *other, x, y))')],
    proofs=[('start', '''lemma_seg_wf_sources(self.sources, self.values.table@.len());
             lemma_seg_wf_sources(other.sources, other.values.table@.len());
             assert(lawful_clone::<usize>());
@@ -195,7 +196,8 @@ fn(IC, 'flatmap', self_ty='IndexedCoproduct', status='P', props=['C08', 'C05', '
                 lemma_seg_range(other.sources.table@, self.values.table@[p] as int, j);
             }
             lemma_segsum_total(self.sources.table@, k, sources_table@, self.sources.table@.len() as int);
-            assert(total(sources_table@) == total(k));''')])
+            assert(total(sources_table@) == total(k));
+            lemma_flatmap_edges(*self, *other, sources_table@, values.table@);''')])
 endgroup()
 
 def generic_values_fns(F, group_header, vlen, vtarget_clause, vidx, extra_req, eq_sizes):
